@@ -78,6 +78,8 @@ STD_OPTIONS = [
     ("max_radius=2.0,constant_volume_mode=False", {"max_radius": 2.0, "constant_volume_mode": False}, {}, False),
     ("max_radius=False,constant_volume_mode=False", {"max_radius": False, "constant_volume_mode": False}, {}, False),
     ("compute_radius_with_all=True,constant_volume_mode=False", {"compute_radius_with_all": True, "constant_volume_mode": False}, {}, False),
+    ("compute_radius_with_all=True,check_acceptance=True,constant_volume_mode=False",
+     {"compute_radius_with_all": True, "check_acceptance": True, "constant_volume_mode": False}, {}, True),
     ("truncate_log_q=True", {"truncate_log_q": True}, {}, True),
     ("accumulate_weights=True", {"accumulate_weights": True}, {}, True),
     ("check_acceptance=True", {"check_acceptance": True}, {}, False),
@@ -110,6 +112,10 @@ STD_OPTIONS = [
     ("training_config.optimiser=adam", {"training_config": {"optimiser": "adam"}}, {}, False),
     ("training_config.use_dataloader=True", {"training_config": {"use_dataloader": True}}, {}, False),
     ("training_config.batch_size=all", {"training_config": {"batch_size": "all"}}, {}, False),
+    # a final batch of one sample (45 % 4, 50 % 7): known to hang / spin - thorough tier only, short wall cap
+    ("training_config.batch_size=4", {"training_config": {"batch_size": 4}}, {}, "thorough"),
+    ("training_config.val_size=0 x training_config.batch_size=7", {"training_config": {"val_size": 0, "batch_size": 7}}, {}, "thorough"),
+    ("training_config.batch_size=5", {"training_config": {"batch_size": 5}}, {}, False),
     ("training_config.val_size=0.3", {"training_config": {"val_size": 0.3}}, {}, False),
     ("training_config.clip_grad_norm=None", {"training_config": {"clip_grad_norm": None}}, {}, False),
     ("reset_weights=1", {"reset_weights": 1}, {}, True),
@@ -167,6 +173,12 @@ INS_OPTIONS = [
     ("flow_config.ftype=nsf", {"flow_config": {"ftype": "nsf"}}, {}, False),
     ("flow_config.ftype=maf", {"flow_config": {"ftype": "maf"}}, {}, True),
     ("training_config.noise=constant", {"training_config": {"noise_type": "constant", "noise_scale": 0.1}}, {}, False),
+    ("flow_config.batch_norm_between_layers=False", {"flow_config": {"batch_norm_between_layers": False}}, {}, False),
+    ("flow_config.linear_transform=permutation", {"flow_config": {"linear_transform": "permutation"}}, {}, False),
+    ("flow_config.linear_transform=svd", {"flow_config": {"linear_transform": "svd"}}, {}, False),
+    ("flow_config.n_layers=1", {"flow_config": {"n_layers": 1}}, {}, False),
+    ("flow_config.activation=tanh", {"flow_config": {"activation": "tanh"}}, {}, False),
+    ("flow_config.distribution=lars", {"flow_config": {"distribution": "lars"}}, {}, False),
     ("bootstrap=True", {"bootstrap": True}, {}, True),
     ("train_final_flow=True", {"train_final_flow": True}, {}, True),
     ("redraw_samples=True", {}, {"redraw_samples": True}, True),
@@ -236,7 +248,9 @@ STD_PAIR_AXES = [
     ("reset", [{}, {"reset_flow": 1}, {"reset_weights": 1}]),
     ("uninformed", [{}, {"maximum_uninformed": False}, {"analytic_priors": True}]),
     ("training_frequency", [{}, {"training_frequency": 20}]),
-    ("drawsize", [{}, {"drawsize": 20}, {"check_acceptance": True}]),
+    ("drawsize", [{}, {"drawsize": 20}, {"drawsize": 2}, {"check_acceptance": True}]),
+    ("val_size", [{}, {"training_config": {"val_size": 0}}]),
+    ("loader", [{}, {"training_config": {"use_dataloader": True}}, {"training_config": {"batch_size": "all"}}]),
 ]
 INS_PAIR_AXES = [
     ("threshold_method", [{}, {"threshold_method": "quantile"}]),
@@ -252,7 +266,51 @@ INS_PAIR_AXES = [
     ("ftype", [{}, {"flow_config": {"ftype": "maf"}}]),
     ("weighted_kl", [{}, {"weighted_kl": True}]),
     ("n_update", [{}, {"n_update": 10}]),
+    ("val_size", [{}, {"training_config": {"val_size": 0}}]),
+    ("batch_size", [{}, {"training_config": {"batch_size": "all"}}]),
+    ("noise", [{}, {"training_config": {"noise_type": "constant", "noise_scale": 0.1}}]),
 ]
+
+
+# methods of the finished sampler that a user calls after run() (label, [(method, args)])
+INS_POST = [("post:draw_more_nested_samples", [["draw_more_nested_samples", [20]]]),
+            ("post:draw_posterior_samples", [["draw_posterior_samples", []]])]
+
+# mini pairwise arrays that run in BOTH tiers: every value on its own and all pairs of values of different axes.
+# training sub-options (both samplers; the importance sampler always trains through data loaders)
+TRAIN_AXES = [
+    ("val_size", [{"training_config": {"val_size": 0}}, {"training_config": {"val_size": 0.5}}]),
+    ("use_dataloader", [{"training_config": {"use_dataloader": True}}]),
+    ("batch_size", [{"training_config": {"batch_size": "all"}}, {"training_config": {"batch_size": 10000}},
+                    {"training_config": {"batch_size": 5}}]),
+    ("noise", [{"training_config": {"noise_type": "constant", "noise_scale": 0.1}},
+               {"training_config": {"noise_type": "adaptive", "noise_scale": 0.1}}]),
+    ("annealing", [{"training_config": {"annealing": True}}]),
+]
+# population options of the standard sampler on the corner-peaked model (a fair share of the flow's draws lies
+# outside the prior bounds, so with a small drawsize whole batches are discarded)
+POP_AXES = [
+    ("drawsize", [{"drawsize": 1}, {"drawsize": 2}, {"drawsize": 7}]),
+    ("truncate_log_q", [{"truncate_log_q": True}]),
+    ("accumulate_weights", [{"accumulate_weights": True}]),
+    ("latent", [{"constant_volume_mode": False}, {"latent_prior": "uniform_nball"}]),
+    ("check_acceptance", [{"check_acceptance": True}]),
+]
+
+
+def mini_array(n, sampler, axes, tier, seed0, model, seeds_for_singles=1):
+    out = []
+    suffix = "" if model == "gauss2" else f"@{model}"
+    for _, vals in axes:
+        for v in vals:
+            for k in range(seeds_for_singles):
+                out.append(mkjob(f"j{next(n)}", sampler, compact(v) + suffix, v, {}, tier, seed0 + k, model=model))
+    for (na, va), (nb, vb) in itertools.combinations(axes, 2):
+        for a in va:
+            for b in vb:
+                out.append(mkjob(f"j{next(n)}", sampler, f"{compact(a)} x {compact(b)}{suffix}", merge(merge({}, a), b), {},
+                                 tier, seed0, stream="pair", model=model))
+    return out
 
 
 def compact(kw):
@@ -284,7 +342,7 @@ def mkjob(jid, sampler, label, kw, rkw, tier, seed, stream="valid", model="gauss
     run_kwargs = {"plot": False, "save": False}
     run_kwargs.update(rkw)
     return {"id": jid, "sampler": sampler, "label": label, "stream": stream, "kwargs": kwargs, "run_kwargs": run_kwargs,
-            "model": model, "seed": seed, "wall": 150 if tier == "quick" else 240,
+            "model": model, "seed": seed, "wall": 100 if tier == "quick" else 240,
             "draw_cap": 300_000, "like_cap": 100_000, "stall_cap": 300, "max_traces": 8}
 
 
@@ -328,9 +386,12 @@ def build_jobs(chk, alias_tbl=None):
                                        ("ins", INS_OPTIONS, INS_INVALID, INS_PAIR_AXES)):
         jobs.append(mkjob(f"j{next(n)}", sampler, "<base>", {}, {}, tier, seed0))
         for label, kw, rkw, main in opts:
-            if tier == "quick" and not main and ("plot=True" in label or "n_pool" in label):
-                continue                # the slow ones (plots, process pools) are left to the thorough tier
+            if tier == "quick" and (main == "thorough" or (not main and ("plot=True" in label or "n_pool" in label))):
+                continue                # the slow ones (plots, process pools, known hangs) are left to the thorough tier
             jobs.append(mkjob(f"j{next(n)}", sampler, label, kw, rkw, tier, seed0))
+            if main == "thorough":
+                jobs[-1]["wall"] = 75
+                continue
             if tier == "thorough":
                 jobs.append(mkjob(f"j{next(n)}", sampler, label, kw, rkw, tier, seed0 + 1,
                                   model="gauss3" if "reparameterisations" not in kw else "gauss2"))
@@ -338,6 +399,14 @@ def build_jobs(chk, alias_tbl=None):
             jobs.append(mkjob(f"j{next(n)}", sampler, label, kw, rkw, tier, seed0, stream="invalid"))
         if sampler == "ins":
             jobs += alias_jobs(n, tier, seed0, alias_tbl or FALLBACK_ALIASES)
+            for label, calls in INS_POST:
+                j = mkjob(f"j{next(n)}", "ins", label, {}, {}, tier, seed0)
+                j["post_calls"] = calls
+                jobs.append(j)
+        jobs += mini_array(n, sampler, TRAIN_AXES, tier, seed0, "gauss2")
+        jobs.append(mkjob(f"j{next(n)}", sampler, "<base>@corner2", {}, {}, tier, seed0, model="corner2"))
+        if sampler == "std":
+            jobs += mini_array(n, "std", POP_AXES, tier, seed0, "corner2", seeds_for_singles=2 if tier == "quick" else 3)
         if tier == "thorough":
             for (na, va), (nb, vb) in itertools.combinations(axes, 2):
                 for a in va:
@@ -373,8 +442,12 @@ def failure_key(job, r):
             # slow, not endless.  Counted in the distribution.
             return None
         where = (r.get("where") or ["?"])
-        last = where[-1] if st == "cap" else (where[0] if where else "?")
-        loop = next((w for w in reversed(where) if w.endswith(":populate") or w.endswith(":draw")), last)
+        if st != "cap":
+            # faulthandler lines (`File ".../nessai/a/b.py", line N in f`, most recent call first) -> a/b.py:f, outermost first
+            fr = [re.search(r'/nessai/([^"]+)", line \d+ in (\w+)', w) for w in where]
+            where = [f"{m.group(1)}:{m.group(2)}" for m in fr if m][::-1] or ["?"]
+        last = where[-1]
+        loop = next((w for w in reversed(where) if w.endswith((":populate", ":draw", ":_train"))), last)
         return (f"C20:no-termination:{loop}:{label}",
                 f"{sampler} run with {label}: {st} ({r.get('exc_msg', 'wall-clock cap')}) in {loop}; "
                 f"loop stats {r.get('loop_stats')}")
@@ -624,6 +697,34 @@ def validators_static(chk):
         chk.translator["shapes"] = c20_options.shapes()
     except Declined as e:
         chk.translator["shapes"] = f"declined: {e}"
+    # (iv) the batch size of the validation DataLoader, regenerated from FlowModel.prep_data
+    out["gen_vb"] = None
+    try:
+        gen_vb, expr = c20_options.val_batch_size()
+        out["gen_vb"] = gen_vb
+        chk.translator["prep_data.val_batch_size"] = f"translated: {expr}"
+        txt = HDR + gen_vb + ("Lemma today_val_loader : P_val_loader gen_val_batch_size.\n"
+                              "Proof. unfold P_val_loader. val_loader_tac gen_val_batch_size. Qed.\n")
+        ok, _, err = chk.coq_run("today_val_loader", txt, timeout=300)
+        chk.oblige("today: the validation batch size regenerated from FlowModel.prep_data is None or >= 1 for every "
+                   "validation-set size >= 0 and batch size >= 1 (hypothesis of C20_loader_never_rejects; split ifs + lia)",
+                   "today", ok, err)
+    except Declined as e:
+        chk.translator["prep_data.val_batch_size"] = f"declined: {e}"
+    # (v) emptiness guards of one pass of FlowProposal.populate
+    try:
+        paths = c20_options.populate_guard_paths()
+        chk.translator["populate.guard_paths"] = "translated: " + " ".join("".join(p) for p in paths)
+        lev = {"S": "LShrink", "G": "LGuard", "R": "LReduce"}
+        pl = cL(cL(lev[e] for e in p) for p in paths)
+        txt = HDR + f"Lemma today_guards : paths_guarded {pl} = true.\nProof. vm_compute. reflexivity. Qed.\n"
+        ok, _, err = chk.coq_run("today_guards", txt, timeout=120)
+        chk.oblige(f"today: on every path through one pass of FlowProposal.populate's loop ({len(paths)} event lists regenerated "
+                   "from the source) each reduction (max / nanmax ...) of a batch-length array comes after an emptiness guard "
+                   "that follows the last shrinking step (paths_guarded; C20_reductions_guarded)", "today", ok,
+                   err or "paths: " + " ".join("".join(p) for p in paths))
+    except Declined as e:
+        chk.translator["populate.guard_paths"] = f"declined: {e}"
     # pipeline order
     for sampler in ("std", "ins"):
         try:
@@ -701,7 +802,17 @@ def gen_validator_cases(rng, tier, alias_tbl, base_tbl):
         for sk in (0, 1, 2):
             for sv in ("big", 1, [0.1]):
                 tc.append({"type": t, "scale_kind": sk, "scale_value": sv})
-    return {"cc": cc, "sc": sc, "pc": pc, "cpk": cpk, "tc": tc}
+    cbs, prep = [], []
+    for _ in range(n):
+        bs = rng.choice([0, 1, 2, 3, 7, 10, 20, 50, 100, 1000, rng.randint(2, 300)])
+        nn = rng.choice([0, 1, 2, bs, bs + 1, 2 * bs + 1, 10 * bs + 3, rng.randint(0, 400)])
+        cbs.append({"n": max(0, nn), "bs": bs})
+    for _ in range(n // 2):
+        prep.append({"n": rng.choice([2, 3, 10, 45, 50, 100, rng.randint(2, 300)]),
+                     "val_size": rng.choice([0, 0, None, 0.1, 0.3, 0.5, 0.9]),
+                     "batch_size": rng.choice(["all", None, 2, 7, 50, 1000, 10000, 1, 0, "big", rng.randint(2, 200)]),
+                     "use_dataloader": rng.random() < 0.6, "weights": rng.random() < 0.4})
+    return {"cc": cc, "sc": sc, "pc": pc, "cpk": cpk, "tc": tc, "cbs": cbs, "prep": prep}
 
 
 def validators_dynamic(chk, st):
@@ -806,6 +917,55 @@ def validators_dynamic(chk, st):
             obs = f"(TCok {cB(r['noise_type_set'])})"
         lits.append(cT(cB(c["type"] is not None), cN(c["scale_kind"]), obs))
     corr(chk, "tc", hdr, "chk_tc", lits, "real update_training_config (noise options) = model")
+    # check_batch_size ------------------------------------------------------------------------------
+    lits = []
+    for c, r in zip(cases["cbs"], res.get("cbs", [])):
+        lits.append(cT(cZ(c["n"]), cZ(c["bs"]), "None" if "error" in r else f"(Some {cZ(r['b'])})"))
+        chk.count("cbs:" + ("raised" if "error" in r else ("adjusted" if r["b"] != c["bs"] else "kept")))
+        if "error" not in r and r["b"] != c["bs"]:
+            chk.nontriv(("cbs", c["n"], c["bs"]))
+        if "error" not in r and c["bs"] >= 1 and r["b"] < 1:
+            chk.fail("C20:validator:check_batch_size-nonpositive", f"check_batch_size({c}) returned {r['b']}", {"kind": "validator", "case": c, "observed": r})
+    corr(chk, "cbs", hdr, "chk_cbs", lits, "real FlowModel.check_batch_size = model check_batch_size")
+    # prep_data: batch sizes that reach the DataLoaders -----------------------------------------------
+    vb_hdr = hdr + (st.get("gen_vb") or "")
+    vb_fn = "gen_val_batch_size" if st.get("gen_vb") else "val_batch_size"
+    lits_dl, lits_t = [], []
+    for c, r in zip(cases["prep"], res.get("prep", [])):
+        vs = c["val_size"] or 0
+        nt = int((1 - vs) * c["n"])
+        nv = c["n"] - nt
+        b = c["batch_size"]
+        spec = "BSall" if b in ("all", None) else (f"(BSint {cZ(b)})" if isinstance(b, int) and not isinstance(b, bool) else "BSother")
+        dl = c["use_dataloader"] or c["weights"]
+        if nt == 0:
+            chk.count("prep:empty-training-set(skipped)")      # torch refuses to shuffle an empty dataset: outside the model
+            continue
+        chk.count("prep:" + ("raised" if "error" in r else "ok") + (":dataloader" if dl else ":tensor") + (":no-validation" if nv == 0 else ""))
+        valid = nt >= 2 and spec != "BSother" and (b in ("all", None) or b >= 2)
+        if "error" in r:
+            obs = "None"
+            if nv == 0 or not valid:
+                chk.nontriv(("prep", json.dumps(c)))
+            # direct predicate: a configuration inside the documented domain must not fail at the loaders
+            if valid and (r.get("where") or [""])[-1].endswith(":prep_data"):
+                chk.fail(f"C20:prep_data-raised:{r['error']}:empty-validation-set={nv == 0}:dataloader={dl}",
+                         f"FlowModel.prep_data raised {r['error']} ({r.get('msg')}) for n={c['n']} val_size={c['val_size']} "
+                         f"batch_size={c['batch_size']} dataloader={dl}: the training data of an accepted configuration cannot be loaded",
+                         {"kind": "validator", "case": c, "observed": r})
+        elif r["dataloader"]:
+            obs = f"(Some ({cZ(r['train_bs'])}, {'None' if r['val_bs'] is None else '(Some ' + cZ(r['val_bs']) + ')'}))"
+            if r["train_bs"] is None or r["train_bs"] < 1 or (r["val_bs"] is not None and r["val_bs"] < 1):
+                chk.fail("C20:prep_data-nonpositive-batch", f"prep_data built a loader with batch sizes {r['train_bs']}, {r['val_bs']}",
+                         {"kind": "validator", "case": c, "observed": r})
+        else:
+            obs = f"(Some ({cZ(r['b'])}, None))"
+        (lits_dl if dl else lits_t).append(cT(cZ(nt), cZ(nv), spec, obs))
+    corr(chk, "prep_dl", vb_hdr, f"(chk_loaders {vb_fn})", lits_dl,
+         f"batch sizes of the two DataLoaders built by the real FlowModel.prep_data = model data_loaders {vb_fn}",
+         ty="Z * Z * bs_spec * option (Z * option Z)")
+    corr(chk, "prep_t", hdr, "(chk_loaders (fun (_ _ : Z) => @None Z))", lits_t,
+         "batch size returned by the real FlowModel.prep_data (tensor path) = model", ty="Z * Z * bs_spec * option (Z * option Z)")
     chk.evaluations += sum(len(v) for v in cases.values())
     # which documented keyword arguments (nessai.utils.settings.get_all_kwargs) the covering array touches
     doc = res.get("documented") or {}
@@ -822,10 +982,10 @@ def validators_dynamic(chk, st):
                          f"checkpointing, plotting switches, deprecated aliases): {missing}")
 
 
-def corr(chk, name, hdr, fn, lits, what):
+def corr(chk, name, hdr, fn, lits, what, ty=None):
     bad_all, ok_all, errs = [], True, ""
     for k in range(0, len(lits), 500):
-        txt = hdr + f"Definition cs := {cL(lits[k:k + 500])}.\nEval vm_compute in (mism {fn} cs).\n"
+        txt = hdr + f"Definition cs{' : list (' + ty + ')' if ty else ''} := {cL(lits[k:k + 500])}.\nEval vm_compute in (mism {fn} cs).\n"
         ok, evals, err = chk.coq_run(f"{name}_{k}", txt, timeout=600)
         if not ok or len(evals) != 1:
             ok_all, errs = False, err
@@ -949,6 +1109,7 @@ def covering_array(chk, static, alias_tbl=None):
         chk.count("loop:ins_draw_calls", ls.get("ins_draw_calls", 0))
         chk.count("loop:passes", ls.get("passes", 0))
         chk.count("loop:passes-without-progress", ls.get("stalled_passes", 0))
+        chk.count("loop:passes-with-every-draw-discarded", ls.get("empty_passes", 0))
         chk.distribution["loop:max_passes_in_one_call"] = max(chk.distribution.get("loop:max_passes_in_one_call", 0), ls.get("max_passes", 0))
         for t in r.get("traces", []):
             if not t.get("complete"):
